@@ -4,6 +4,8 @@ from __future__ import annotations
 import numpy as np
 from hypothesis import strategies as st
 
+from vp.gen.morph import fl
+
 from vp import core
 from vp.gen import morph as gm
 from vp.ref.viewmodel import Base, ViewM
@@ -210,7 +212,7 @@ def _chain(draw, spec):
             chain.append(["scope", s])
             view = view.set_scope(s)
         elif op == "loc":
-            x = draw(st.one_of(st.sampled_from([0.0, 1.0, 0.5, 0.25, 0.3, 0.9]), st.floats(0.0, 1.0)))
+            x = draw(st.one_of(st.sampled_from([0.0, 1.0, 0.5, 0.25, 0.3, 0.9]), fl(0.0, 1.0)))
             chain.append(["loc", x])
             cands = view.loc_candidates(x)
             view = view.with_nodes(cands[0], "other")
@@ -287,24 +289,24 @@ def _mutation(draw, spec):
     m = {"op": kind}
     if kind == "set_node":
         m["key"] = draw(st.sampled_from(["radius", "length", "v", "capacitance"]))
-        m["val"] = draw(st.floats(0.5, 50.0))
+        m["val"] = draw(fl(0.5, 50.0))
     elif kind == "set_chan":
         m["key"] = draw(st.sampled_from(["HH_gNa", "HH_m", "Leak_gLeak"]))
-        m["val"] = draw(st.floats(0.001, 0.9))
+        m["val"] = draw(fl(0.001, 0.9))
     elif kind == "set_edge":
         m["key"] = draw(st.sampled_from(["IonotropicSynapse_gS", "TestSynapse_gC", "IonotropicSynapse_s"]))
-        m["val"] = draw(st.floats(0.001, 0.9))
+        m["val"] = draw(fl(0.001, 0.9))
     elif kind == "insert":
         m["channel"] = draw(st.sampled_from(["Km", "HH", "Leak"]))
     elif kind == "record":
         m["state"] = "v"
     elif kind in ("stimulate", "clamp"):
         m["len"] = draw(st.integers(1, 4))
-        m["amp"] = draw(st.floats(-1.0, 1.0, allow_subnormal=False))
+        m["amp"] = draw(fl(-1.0, 1.0))
     elif kind == "add_to_group":
         m["name"] = draw(st.sampled_from(["grpA", "grpNew"]))
     elif kind == "move":
-        m["xyz"] = [draw(st.floats(-100, 100)) for _ in range(3)]
+        m["xyz"] = [draw(fl(-100, 100)) for _ in range(3)]
     return m
 
 
